@@ -53,9 +53,11 @@ Section sim.
       as (s1 & R1 & Pc1 & A1 & P1 & D1 & (T1 & H1 & Cn1 & L1) & V1 & _ & F1); auto.
     - cbn. lia.
     - intros ck [X _]; exact X.
-    - intros ch b fs Hn. rewrite nth_off_0 in Hn. destruct (hold_ok_nth _ _ _ _ _ Hhok Hn) as [Hl Hk]. split.
+    - intros ch b fs Hn Hk. rewrite nth_off_0 in Hn. split.
       + split; [exact Hk|]. unfold lastd. cbn. unfold h_dep. cbn [fst snd]. rewrite Hn.
-        assert (X : key_eqb (mk_key fs) (mk_key fs) = true) by now apply key_eqb_spec. rewrite X. discriminate.
+        assert (Z0 : key_eqb (mk_key fs) [] = false).
+        { destruct (key_eqb (mk_key fs) []) eqn:E0; auto. apply key_eqb_spec in E0. contradiction. }
+        assert (X : key_eqb (mk_key fs) (mk_key fs) = true) by now apply key_eqb_spec. rewrite Z0, X. discriminate.
       + apply Hin. cbn. apply (hold_factors_nth vs 0%nat ch b fs Hn).
     - congruence.
     - (* the Wait *)
